@@ -949,6 +949,8 @@ def real_parses(tier, seed):
     csz = 7 if tier == "quick" else 10
     cli_tasks = [({"ansi": ansi_cli[i:i + csz]}, CLI_COMBOS_FLAGS) for i in range(0, len(ansi_cli), csz)]
     ds = sorted(cli_other)
+    if tier == "quick":         # quick: the CLI/API leg on half of the other dialects (seeded), all of them in thorough
+        ds = sorted(rng.sample(ds, (len(ds) + 1) // 2))
     nparts = 14 if tier == "quick" else 27
     for k in range(nparts):
         part = {d: cli_other[d] for d in ds[k::nparts] if cli_other[d]}
@@ -984,7 +986,8 @@ def real_parses(tier, seed):
                   + f"), {len(UNPARSABLE_SQL)} crafted strings with unparsable/odd sections, {len(extra) - len(UNPARSABLE_SQL)} Jinja templates (loops/ifs/placeholders); "
                   f"every variant tree x {N_FLAGSETS} flag sets + stringify x2; the real click command `parse` on temp directory trees "
                   f"(-f json|yaml|human|none, with -c / -m variants) and sqlfluff.parse() on a seeded subset of {n_cli} of the inputs "
-                  f"(all crafted/Jinja strings + inputs of at most {cap} characters, {per_dialect_cli} per dialect, {4 * per_dialect_cli} for ansi)"),
+                  f"(all crafted/Jinja strings + inputs of at most {cap} characters, {per_dialect_cli} per dialect"
+                  + (" for a seeded half of the non-ansi dialects" if tier == "quick" else "") + f", {4 * per_dialect_cli} for ansi)"),
         "rule": RULE,
         "exhaustive": False,
         "inputs_per_dialect": dict(sorted(per_dialect.items())),
